@@ -903,6 +903,141 @@ class DependencyToRuleConverter:
         return rules
 """})
 
+# ---------------------------------------------------------------------------------------------- fifth batch
+variant("conv-strategy-objects", {DCV: CONV_HEAD + """
+class _ShouldOnlyMode:
+    def verb(self, subject):
+        return subject.should_only()
+
+
+class _ShouldMode:
+    def verb(self, subject):
+        return subject.should()
+
+
+class DependencyToRuleConverter:
+    def __init__(self, should_only_rule: bool) -> None:
+        self._mode = _ShouldOnlyMode() if should_only_rule else _ShouldMode()
+
+    def convert(self, dependencies: ParsedDependencies) -> list[RuleApplier]:
+        should_rules = self._convert_should_rules(dependencies)
+        should_not_rules = self._convert_should_not_rules(dependencies)
+        return should_rules + should_not_rules
+
+    def _convert_should_rules(self, dependencies: ParsedDependencies) -> list[RuleApplier]:
+        return [
+            self._mode.verb(Rule().modules_that().are_named(importer)).import_modules_that().are_named(list(importees))
+            for importer, importees in dependencies.dependencies.items()
+        ]
+
+    @classmethod
+    def _convert_should_not_rules(cls, parsed_dependencies: ParsedDependencies) -> list[RuleApplier]:
+        rules = []
+        for possible_importer in sorted(parsed_dependencies.all_modules):
+            not_imported = cls._not_imported_by(possible_importer, parsed_dependencies)
+            if not_imported:
+                rules.append(Rule().modules_that().are_named(possible_importer).should_not().import_modules_that().are_named(not_imported))
+        return rules
+
+    @staticmethod
+    def _not_imported_by(importer: str, parsed: ParsedDependencies) -> list[str]:
+        imported = parsed.dependencies.get(importer, set())
+        return sorted(m for m in parsed.all_modules if m != importer and m not in imported)
+"""})
+
+variant("mra-outcome-objects", {MUL: MUL_HEAD + """
+import dataclasses
+
+@dataclasses.dataclass(frozen=True)
+class _Outcome:
+    rule: RuleApplier
+    message: Optional[str] = None
+
+    @property
+    def violated(self) -> bool:
+        return self.message is not None
+
+
+class MultipleRuleApplier(RuleApplier):
+    def __init__(self, rule_appliers: list[RuleApplier]) -> None:
+        self._rule_appliers = rule_appliers
+
+    def assert_applies(self, evaluable: EvaluableArchitecture) -> None:
+        outcomes = [self._evaluate(rule, evaluable) for rule in self._rule_appliers]
+        violations = [o for o in outcomes if o.violated]
+        if violations:
+            raise AssertionError("\\n".join(o.message for o in violations))
+
+    @staticmethod
+    def _evaluate(rule: RuleApplier, evaluable: EvaluableArchitecture) -> _Outcome:
+        try:
+            rule.assert_applies(evaluable)
+        except AssertionError as e:
+            return _Outcome(rule, e.args[0])
+        else:
+            return _Outcome(rule)
+"""})
+
+variant("drule-memo-by-configuration", {DRU: DRU_HEAD + PREFIXER_PLAIN + """
+class DiagramRule(FileRule, BaseModuleSpecifier, RuleApplier):
+    def __init__(self, should_only_rule: bool = True) -> None:
+        self._file_path: Path | None = None
+        self._base: str | None = None
+        self._only = should_only_rule
+        self._rules_by_configuration: dict = {}
+
+    def from_file(self, file_path: Path) -> BaseModuleSpecifier:
+        self._file_path = file_path
+        return self
+
+    def with_base_module(self, name_relative_to_root: str) -> RuleApplier:
+        self._base = name_relative_to_root
+        return self
+
+    def base_module_included_in_module_names(self) -> RuleApplier:
+        return self
+
+    def _rules(self) -> list[RuleApplier]:
+        if self._file_path is None:
+            raise ImproperlyConfigured("A file path pointing to the diagram has to be specified.")
+        key = (self._file_path, self._base, self._only)
+        if key not in self._rules_by_configuration:
+            parsed = ModulePrefixer.prefix(PumlParser().parse(self._file_path), self._base)
+            self._rules_by_configuration[key] = DependencyToRuleConverter(self._only).convert(parsed)
+        return self._rules_by_configuration[key]
+
+    def assert_applies(self, evaluable: EvaluableArchitecture) -> None:
+        MultipleRuleApplier(self._rules()).assert_applies(evaluable)
+"""})
+
+variant("drule-BREAK-memo-ignores-base", {DRU: DRU_HEAD + PREFIXER_PLAIN + """
+class DiagramRule(FileRule, BaseModuleSpecifier, RuleApplier):
+    _parsed_by_path: dict = {}
+
+    def __init__(self, should_only_rule: bool = True) -> None:
+        self._file_path: Path | None = None
+        self._base: str | None = None
+        self._only = should_only_rule
+        self._rules = None
+
+    def from_file(self, file_path: Path) -> BaseModuleSpecifier:
+        self._file_path = file_path
+        self._rules = DependencyToRuleConverter(self._only).convert(ModulePrefixer.prefix(PumlParser().parse(file_path), self._base))
+        return self
+
+    def with_base_module(self, name_relative_to_root: str) -> RuleApplier:
+        self._base = name_relative_to_root
+        return self
+
+    def base_module_included_in_module_names(self) -> RuleApplier:
+        return self
+
+    def assert_applies(self, evaluable: EvaluableArchitecture) -> None:
+        if self._file_path is None:
+            raise ImproperlyConfigured("A file path pointing to the diagram has to be specified.")
+        MultipleRuleApplier(self._rules).assert_applies(evaluable)
+"""}, expect="C07.R3")
+
 def main() -> int:
     here = Path(__file__).resolve().parents[1]
     sys.path.insert(0, str(here))
